@@ -69,6 +69,19 @@ fileMustOpen(FileName fn, IOMode mode)
 	return stream;
 }
 
+/*
+ * Close an output stream.  A write, flush or close that failed (device full,
+ * ...) is reported through the same handler as a failed open.
+ */
+void
+fileClose(FILE *stream, FileName fn)
+{
+	Bool	failed = ferror(stream) != 0;
+
+	if (fclose(stream) != 0) failed = true;
+	if (failed) (void) (*fileError)(fn, "w (write or close failed)");
+}
+
 Bool
 fileIsOpenable(FileName fn, IOMode mode)
 {
